@@ -33,8 +33,8 @@ fn cfg_class(lang: &str, loc: &str) -> &'static str {
 }
 
 #[derive(Clone, Copy, Debug, PartialEq, Eq)]
-enum OpK { SwitchOnly, RenameOther, RenameMentioned, MoveOther, DeleteOther, NewSheet, RenameCellName, RenameRangeName, RenameLambda, RenameLocal, RenameToUsedIdentifier, Bytes, Xlsx }
-const OPS: [OpK; 13] = [OpK::SwitchOnly, OpK::RenameOther, OpK::RenameMentioned, OpK::MoveOther, OpK::DeleteOther, OpK::NewSheet, OpK::RenameCellName, OpK::RenameRangeName,
+enum OpK { RenameToRcName, RenameRcName, SwitchOnly, RenameOther, RenameMentioned, MoveOther, DeleteOther, NewSheet, RenameCellName, RenameRangeName, RenameLambda, RenameLocal, RenameToUsedIdentifier, Bytes, Xlsx }
+const OPS: [OpK; 15] = [OpK::RenameToRcName, OpK::RenameRcName, OpK::SwitchOnly, OpK::RenameOther, OpK::RenameMentioned, OpK::MoveOther, OpK::DeleteOther, OpK::NewSheet, OpK::RenameCellName, OpK::RenameRangeName,
     OpK::RenameLambda, OpK::RenameLocal, OpK::RenameToUsedIdentifier, OpK::Bytes, OpK::Xlsx];
 
 /// the names as stored (English), scope as the sheet's name, sorted
@@ -60,11 +60,13 @@ fn value(m: &Model, sheet_name: &str, row: i32, col: i32) -> String {
         Some(c) => format!("{c:?}"), None => "none".into(),
     }
 }
-const USERS: [(usize, i32, &str); 12] = [
+const USERS: [(usize, i32, &str); 15] = [
     (0, 1, "=G_cell+1"), (0, 2, "=SUM(G_range)"), (0, 3, "=L_cell*2"), (0, 4, "=inc(2)"), (0, 5, "=tot(3)"), (0, 6, "=half(5)"),
     (0, 7, "=SUM(G_range)+inc(G_cell)"), (1, 1, "=L_data+G_cell"), (1, 2, "=g_cell&\"x\""), (0, 8, "=Renamed9+1"),
     // a decimal literal and an argument separator next to a name: what a re-parse in the active locale damages
     (0, 9, "=G_cell+0.5"), (1, 3, "=SUM(G_range,0.5)"),
+    // names that START like an R1C1 reference (the stored form is re-read in R1C1 mode) and an A1 twin, global and local
+    (0, 10, "=R2C2_total*2"), (0, 11, "=RC_n+A1_x"), (0, 12, "=LET(R1C1x,R2C2_total,R1C1x+r2c2_TOTAL)"),
 ];
 fn values_view(m: &Model, sheets: &[String; 2]) -> Vec<String> {
     USERS.iter().map(|(s, r, f)| format!("{}!E{} {} -> {}", sheets[*s], r, f, value(m, &sheets[*s], *r, 5))).collect()
@@ -81,7 +83,8 @@ fn build(variant: u64) -> UserModel<'static> {
     let lam_tot = match variant % 4 { 0 => "=LAMBDA(x,SUM(x,Data!$A$1))", 1 => "LAMBDA(x,SUM(x,Data!$A$1))", 2 => "LAMBDA(x,x+Data!$A$1)", _ => "=LAMBDA(x,x+Data!$A$1)" };
     let lam_half = if variant % 3 == 0 { "LAMBDA(x,x*0.5)" } else { "=LAMBDA(x,x/2)" };
     for (n, sc, f) in [("G_cell", None, "Sheet1!$A$1"), ("G_range", None, "Data!$B$2:$B$4"), ("L_cell", Some(0u32), "Sheet1!$C$3"), ("L_data", Some(1u32), "Data!$A$1"),
-                       ("inc", None, "=LAMBDA(x,x+1)"), ("tot", None, lam_tot), ("half", None, lam_half)] {
+                       ("inc", None, "=LAMBDA(x,x+1)"), ("tot", None, lam_tot), ("half", None, lam_half),
+                       ("R2C2_total", None, "Sheet1!$B$2"), ("RC_n", Some(0u32), "Sheet1!$A$2"), ("A1_x", None, "Sheet1!$A$3")] {
         um.new_defined_name(n, sc, f).unwrap();
     }
     for (s, r, f) in USERS { let _ = um.set_user_input(s as u32, r, 5, f); }
@@ -112,6 +115,8 @@ fn apply(um: &mut UserModel, op: OpK) -> Result<(), String> {
         OpK::RenameLambda => { let (s, f) = shown(um, "tot").ok_or("no tot")?; um.update_defined_name("tot", s, "total", s, &f) }
         OpK::RenameLocal => { let (s, f) = shown(um, "L_cell").ok_or("no L_cell")?; um.update_defined_name("L_cell", s, "Local2", s, &f) }
         OpK::RenameToUsedIdentifier => { let (s, f) = shown(um, "G_cell").ok_or("no G_cell")?; um.update_defined_name("G_cell", s, "Renamed9", s, &f) }
+        OpK::RenameToRcName => { let (s, f) = shown(um, "G_cell").ok_or("no G_cell")?; um.update_defined_name("G_cell", s, "R9C9_g", s, &f) }
+        OpK::RenameRcName => { let (s, f) = shown(um, "R2C2_total").ok_or("no R2C2_total")?; um.update_defined_name("R2C2_total", s, "R3C3.sum", s, &f) }
         OpK::Bytes | OpK::Xlsx => Ok(()),
     }
 }
@@ -123,6 +128,8 @@ fn expect_names(before: &[String], op: OpK) -> Vec<String> {
         OpK::RenameLambda => l.replace("tot @", "total @"),
         OpK::RenameLocal => l.replace("L_cell @", "Local2 @"),
         OpK::RenameToUsedIdentifier => l.replace("G_cell @", "Renamed9 @"),
+        OpK::RenameToRcName => l.replace("G_cell @", "R9C9_g @"),
+        OpK::RenameRcName => l.replace("R2C2_total @", "R3C3.sum @"),
         _ => l.clone(),
     }).collect();
     v.sort();
@@ -166,7 +173,7 @@ impl Run {
         let (r1, r2) = match (r1, r2) { (Ok(a), Ok(b2)) => (a, b2), _ => { self.or.fail("operation_panics", replay, format!("{op:?} panics")); return; } };
         self.or.checked += 1;
         if r1.is_ok() != r2.is_ok() {
-            self.or.fail(&format!("outcome_depends_on_language:{}", match op { OpK::RenameCellName | OpK::RenameRangeName | OpK::RenameLambda | OpK::RenameLocal | OpK::RenameToUsedIdentifier => "update_defined_name", _ => "sheet_op" }),
+            self.or.fail(&format!("outcome_depends_on_language:{}", match op { OpK::RenameToRcName | OpK::RenameRcName | OpK::RenameCellName | OpK::RenameRangeName | OpK::RenameLambda | OpK::RenameLocal | OpK::RenameToUsedIdentifier => "update_defined_name", _ => "sheet_op" }),
                 replay, format!("{op:?}: {r1:?} under {lang}/{loc}, {r2:?} in en/en"));
             return;
         }
@@ -196,7 +203,7 @@ impl Run {
         let vt = values_view(twin.get_model(), &sheets1);
         let n_exp = unify(expect_names(&n0, op));
         let v_exp: Vec<String> = v0.iter().map(|l| expect_value_line(l, op)).collect();
-        let is_name_op = matches!(op, OpK::RenameCellName | OpK::RenameRangeName | OpK::RenameLambda | OpK::RenameLocal | OpK::RenameToUsedIdentifier);
+        let is_name_op = matches!(op, OpK::RenameToRcName | OpK::RenameRcName | OpK::RenameCellName | OpK::RenameRangeName | OpK::RenameLambda | OpK::RenameLocal | OpK::RenameToUsedIdentifier);
         // values: the formula text column changes with a rename of a name; compare the value part only
         let val_only = |v: &Vec<String>| v.iter().map(|l| l.rsplit(" -> ").next().unwrap_or("").to_string()).collect::<Vec<_>>();
         self.or.checked += 2;
@@ -237,7 +244,7 @@ impl Run {
         }
         // ---- tie: the rename pass. For every stored formula: tree before, (name, scope, new) -> tree after
         if is_name_op && lang == "en" && dot(loc) {
-            let (old, new, scope) = match op { OpK::RenameCellName => ("G_cell", "Renamed1", -1), OpK::RenameRangeName => ("G_range", "Renamed2", -1), OpK::RenameLambda => ("tot", "total", -1),
+            let (old, new, scope) = match op { OpK::RenameToRcName => ("G_cell", "R9C9_g", -1), OpK::RenameRcName => ("R2C2_total", "R3C3.sum", -1), OpK::RenameCellName => ("G_cell", "Renamed1", -1), OpK::RenameRangeName => ("G_range", "Renamed2", -1), OpK::RenameLambda => ("tot", "total", -1),
                 OpK::RenameLocal => ("L_cell", "Local2", 0), _ => ("G_cell", "Renamed9", -1) };
             let after: Vec<String> = um.get_model().parsed_formulas.iter().flat_map(|pf| pf.iter().map(|p| dump_s(&p.0, &self.fns))).collect();
             if after.len() == trees_before.len() {
@@ -260,14 +267,15 @@ impl Run {
     /// the rename pass on random formulas that use the names (tie only)
     fn pool_tie(&mut self, rng: &mut Rng, k: u64) {
         let mut um = build(k);
-        let g = fgen::FGen { sheets: vec!["Sheet1".into(), "Data".into()], names: vec!["G_cell".into(), "G_range".into(), "L_cell".into(), "g_cell".into(), "inc(G_cell)".into(), "tot(1)".into(), "G_CELL".into()],
+        let g = fgen::FGen { sheets: vec!["Sheet1".into(), "Data".into()], names: vec!["G_cell".into(), "G_range".into(), "L_cell".into(), "g_cell".into(), "inc(G_cell)".into(), "tot(1)".into(), "G_CELL".into(), "R2C2_total".into(), "RC_n".into(), "A1_x".into()],
             max_row: 8, max_col: 4, long_numbers: false, errors: true, arrays: true, spills: true, upper_user_fn: false };
         // names are a third of the atoms: wrap the generator's formula around name atoms
         for i in 0..24 {
             let f = format!("{}+{}", g.formula(rng), rng.pick(&["G_cell", "SUM(G_range)", "L_cell", "IF(g_cell>1,G_cell,L_cell)", "LAMBDA(q,q+G_cell)(G_cell)"]));
             let _ = catch_unwind(AssertUnwindSafe(|| um.set_user_input(0, 10 + i, 7, &f)));
         }
-        let (old, new, scope, fml) = *rng.pick(&[("G_cell", "Renamed1", -1, "Sheet1!$A$1"), ("G_range", "Renamed2", -1, "Data!$B$2:$B$4"), ("L_cell", "Local2", 0, "Sheet1!$C$3")]);
+        let (old, new, scope, fml) = *rng.pick(&[("G_cell", "Renamed1", -1, "Sheet1!$A$1"), ("G_range", "Renamed2", -1, "Data!$B$2:$B$4"), ("L_cell", "Local2", 0, "Sheet1!$C$3"),
+            ("R2C2_total", "R3C3.sum", -1, "Sheet1!$B$2"), ("G_cell", "R9C9_g", -1, "Sheet1!$A$1"), ("RC_n", "A1_y", 0, "Sheet1!$A$2")]);
         let sc = if scope < 0 { None } else { Some(scope as u32) };
         let before: Vec<String> = um.get_model().parsed_formulas.iter().flat_map(|pf| pf.iter().map(|p| dump_s(&p.0, &self.fns))).collect();
         // trees the stored text does not bring back unchanged (C09 / C26 classes: associative pairs, lexer glue,
